@@ -34,8 +34,8 @@ ASSUMPTIONS = [
     "coarser/finer means all axes coarsened resp. refined by integer factors (no mixed directions in one call)",
 ]
 FLOORS = {
-    "quick": {"normalize_float32_images": 100, "payload_rank_drop": 150, "integral_matches_model": 3000, "history_independent": 800, "linearity": 250, "normalize_equalises": 250, "offline:same_call_same_result": 2000},
-    "thorough": {"normalize_float32_images": 1000, "payload_rank_drop": 1500, "integral_matches_model": 30000, "history_independent": 8000, "linearity": 2500, "normalize_equalises": 2500, "offline:same_call_same_result": 20000},
+    "quick": {"callers_containers_overwritten": 150, "normalize_float32_images": 100, "payload_rank_drop": 150, "integral_matches_model": 3000, "history_independent": 800, "linearity": 250, "normalize_equalises": 250, "offline:same_call_same_result": 2000},
+    "thorough": {"callers_containers_overwritten": 1500, "normalize_float32_images": 1000, "payload_rank_drop": 1500, "integral_matches_model": 30000, "history_independent": 8000, "linearity": 2500, "normalize_equalises": 2500, "offline:same_call_same_result": 20000},
 }
 LETTERS = ["native", "coarser", "finer", "other"]
 
@@ -148,7 +148,7 @@ def make_config(rng, darsia, idx):
 
     weights = []
     if klass == "plain":
-        ctor = lambda: darsia.Geometry(**geo_kw)
+        ctor = lambda own=None: darsia.Geometry(**{**geo_kw, **(own or {})})
     elif klass == "extruded_porous":
         pk = wkind
         dk = ["float", "ndarray", "image"][(idx // 13) % 3]
@@ -157,7 +157,7 @@ def make_config(rng, darsia, idx):
         weights = [pa, da]
         pobj = pi if pi is not None else (pa.copy() if isinstance(pa, np.ndarray) else pa)
         dobj = di if di is not None else (da.copy() if isinstance(da, np.ndarray) else da)
-        ctor = lambda: darsia.ExtrudedPorousGeometry(porosity=pobj, depth=dobj, **geo_kw)
+        ctor = lambda own=None: darsia.ExtrudedPorousGeometry(porosity=pobj, depth=dobj, **{**geo_kw, **(own or {})})
         wkind = f"{pk}+{dk}"
     else:
         if wkind == "image":
@@ -167,10 +167,11 @@ def make_config(rng, darsia, idx):
         wobj = wa.copy() if isinstance(wa, np.ndarray) else wa
         C = {"weighted": (darsia.WeightedGeometry, "weight"), "extruded": (darsia.ExtrudedGeometry, "expansion"),
              "porous": (darsia.PorousGeometry, "porosity")}[klass]
-        ctor = lambda: C[0](**{C[1]: wobj}, **geo_kw)
+        ctor = lambda own=None: C[0](**{C[1]: wobj}, **{**geo_kw, **(own or {})})
     array_weight = any(isinstance(w, np.ndarray) for w in weights)
     spec = {"shape": tuple(shape), "voxel_size": h, "weights": weights}
     desc = {"class": klass, "dim": dim, "weight_kind": wkind, "ctor_form": form, "data_kind": dkind, "payload": payload, "shape": shape}
+    spec["geo_kw"] = geo_kw
     return ctor, spec, desc, array_weight
 
 
@@ -238,7 +239,13 @@ def run_shard(spec_, R):
             seq = [0 for _ in seq]  # documented: array volumes can only be resized in 2-D
         case = {"config": desc, "sequence": [LETTERS[x] for x in seq]}
         grp = f"{desc['class']}/{desc['dim']}d/{desc['weight_kind']}/{desc['payload']}"
-        ok, geom = R.guarded("geometry_constructible", ctor)
+        # every third geometry is built from containers the caller keeps and overwrites after the first integration:
+        # the voxel counts as an integer array, the dimensions / voxel sizes as a list
+        own = None
+        if cfg_idx % 3 == 1:
+            own = {k_: (np.array(v_) if k_ == "num_voxels" else list(v_)) for k_, v_ in spec["geo_kw"].items() if k_ in ("num_voxels", "dimensions", "voxel_size")}
+            desc["callers_containers"] = "overwritten after the first call"
+        ok, geom = R.guarded("geometry_constructible", (lambda: ctor(own)) if own is not None else ctor)
         if not ok:
             continue
         gid = f"s{spec_['shard']}g{si}"
@@ -254,6 +261,12 @@ def run_shard(spec_, R):
                 last = None
                 break
             log(gid, letter, arr, res)
+            if own is not None and pos == 0:
+                own["num_voxels"] //= 2
+                for k_ in ("dimensions", "voxel_size"):
+                    if k_ in own:
+                        own[k_][0] *= 3.0
+                R.count("callers_containers_overwritten")
             exp, mag = model_integral(spec, arr, letter)
             res_a = np.asarray(res, float)
             # resized array volumes go through cv2.resize(INTER_AREA), whose area weights are float32
